@@ -41,7 +41,7 @@ def warm_all(verbose=True):
                 except Exception as exc:  # noqa: BLE001
                     print(f"  warm {name}: {type(exc).__name__}: {exc}")
                 ran += 1
-                if ran >= 40 or time.time() - t0 > 90:
+                if ran >= 25 or time.time() - t0 > 30:
                     break
         finally:
             ctx.cleanup()
